@@ -173,13 +173,16 @@ def spec_of(s):
         keys = p.get("keys")
         if _is_nil(keys):
             return {"t": "dict"}
-        ents, relaxed = [], False
+        ents, relaxed, at = [], False, None
         for k, pair in keys.items():
             if k is Ellipsis:
-                relaxed = True
+                relaxed, at = True, len(ents)
             else:
                 ents.append({"key": k, "opt": bool(pair[1]), "spec": spec_of(pair[0])})
-        return {"t": "dict", "entries": ents, "relaxed": relaxed}
+        out = {"t": "dict", "entries": ents, "relaxed": relaxed}
+        if relaxed and at < len(ents):
+            out["relaxed_at"] = at          # `...: ...` was not declared last
+        return out
     if cls == "AnySchema":
         types = p.get("types")
         if _is_nil(types):
